@@ -366,6 +366,32 @@ def r10_result_map_chain(text, count=None):
     return text, k
 
 
+def r10_option_filter(text, count=None):
+    """E.filter(|&p| B) / E.filter(|p| B)  ->  (match E { Some(p) => if B { Some(p) } else { None }, None => None })
+    for Option receivers of Copy payloads (closure body without nested closures)."""
+    k = 0
+    while True:
+        m = mask(text)
+        mm = re.search(r"\.\s*filter\(\s*\|\s*(&?)\s*(\w+)\s*\|", m)
+        if not mm:
+            break
+        op = m.index("(", mm.start())
+        cp = match_close(m, op)
+        body = text[mm.end():cp].strip()
+        if "|" in mask(body).replace("||", ""):
+            raise Undecided("R10f: nested closure in filter body")
+        p = mm.group(2)
+        if not mm.group(1):
+            body = re.sub(r"\*\s*%s\b" % re.escape(p), p, body)   # |p| *p > 0  ->  p > 0
+        s0 = _receiver_start(m, mm.start())
+        recv = text[s0:mm.start()]
+        text = text[:s0] + "(match %s { Some(%s) => if %s { Some(%s) } else { None }, None => None })" % (recv, p, body, p) + text[cp + 1:]
+        k += 1
+    if (count is None and k == 0) or (count is not None and count >= 0 and k != count):
+        raise Undecided("R10f: %d Option::filter sites, expected %s" % (k, count))
+    return text, k
+
+
 def r10_poll_map_err(text, variant, count=1):
     """X.poll_ready(cx).map_err(V) -> three-arm match on Poll (R10, Poll form)."""
     pat = r"((?:[A-Za-z_]\w*)(?:\s*\.\s*[A-Za-z_]\w*)*\s*\.\s*poll_ready\(\s*cx\s*\))\s*\.\s*map_err\(\s*%s\s*\)" % re.escape(variant)
@@ -718,6 +744,8 @@ def apply_rules(text, rules, log, fn):
             text, k = r15_opaque(text, *r[1:])
         elif kind == "R10r":
             text, k = r10_result_map_chain(text, *r[1:])
+        elif kind == "R10f":
+            text, k = r10_option_filter(text, *r[1:])
         elif kind == "R10p":
             text, k = r10_poll_map_err(text, *r[1:])
         elif kind == "R18":
